@@ -32,7 +32,7 @@ def cases(seed, tier):
         d = int(rng.choice([2, 3, 4, 5, 6], p=[.1, .25, .3, .2, .15]))
         perm = [int(x) for x in rng.permutation(d)]
         out.append({'mode': 'fit', 'table': {'d': d, 'n': int(rng.choice([60, 200])),
-                                              'pattern': str(rng.choice(['gram', 'equi', 'negative', 'block', 'monotone', 'ties'])),
+                                              'pattern': str(rng.choice(['gram', 'equi', 'negative', 'block', 'monotone', 'ties', 'near_monotone'])),
                                               'perm': perm, 'seed': int(rng.integers(1 << 31))},
                     'vine_type': ['center', 'direct', 'regular'][r % 3], 'truncated': int(rng.choice([1, 2, 3, 10], p=[.1, .2, .3, .4])),
                     'sentinel': str(rng.choice(['pos', 'neg', 'nan'])), 'seed': int(rng.integers(1 << 31))})
@@ -136,8 +136,11 @@ def _fit_case(spec, ctx):
         recorded.append((np.array(X, dtype=float, copy=True), res.copula_type, res.theta))
         return res
     cb.select_copula = probe
+    past = vines.past_table(df, rng) if spec['seed'] % 3 == 0 else None
+    if past is not None:
+        where['refitted'] = True
     try:
-        model, poison = vines.fit(ctx, spec['vine_type'], df, spec['truncated'], spec['sentinel'])
+        model, poison = vines.fit(ctx, spec['vine_type'], df, spec['truncated'], spec['sentinel'], past=past)
     finally:
         cb.select_copula = real
     if poison is None:
@@ -198,10 +201,14 @@ def _fit_case(spec, ctx):
             okh, hs = ctx.call(lambda: (_h(cop, xL, xR), _h(cop, xR, xL)))
             U = np.asarray(e.U, dtype=float)
             if okh and U.shape == (2, len(xL)):
-                err = max(np.max(np.abs(U[0] - hs[0]) / (1e-9 * np.abs(hs[0]) + 1e-12)),
-                          np.max(np.abs(U[1] - hs[1]) / (1e-9 * np.abs(hs[1]) + 1e-12)))
-                good = bool(err <= 1) and not np.isnan(U).any()
-                nan_only = extreme and np.isnan(U).any() and np.array_equal(np.isnan(U), np.isnan(np.vstack(hs)))
+                H = np.vstack(hs)
+                with np.errstate(all='ignore'):
+                    e_ = np.abs(U - H) / (1e-9 * np.abs(H) + 1e-12)
+                e_ = np.where((U == H) | (np.isnan(U) & np.isnan(H)), 0.0, e_)      # equal infinities / NaNs agree
+                err = float(np.max(np.where(np.isnan(e_), np.inf, e_)))
+                good = bool(err <= 1) and np.isfinite(U).all()
+                # the values ARE the class's h-function of the inputs, but that function under/overflowed
+                nan_only = extreme and err <= 1 and not np.isfinite(U).all()
                 ctx.check(good, 'edge.U-is-h-of-inputs', 'C17:edge-U-not-h-function-of-inputs' + suffix +
                           (':nan-h-values' + extreme if nan_only else ''), lambda: dict(we, worst=float(err), theta=e.theta))
                 all_edges_ok &= good
@@ -218,7 +225,10 @@ def _fit_case(spec, ctx):
                               dict(we, shape=list(U.shape)))
                 all_edges_ok = False
             strict = bool(((U > 0) & (U < 1)).all()) if U.size else False
-            ctx.check(strict, 'edge.U-strictly-inside', 'C17:edge-U-not-strictly-inside-unit-interval' + extreme,
+            nonfinite = bool(U.size and not np.isfinite(U).all())
+            touches = bool(U.size and np.isfinite(U).all() and ((U == 0) | (U == 1)).any())
+            ctx.check(strict, 'edge.U-strictly-inside', 'C17:edge-U-not-strictly-inside-unit-interval' +
+                      ((':nonfinite' + extreme) if nonfinite else (':exactly-0-or-1' if touches else ':beyond-unit-interval' + extreme)),
                       lambda: dict(we, min=float(np.nanmin(U)), max=float(np.nanmax(U)), nan=int(np.isnan(U).sum()), theta=e.theta, family=e.name.name))
     ctx.distinct('vines with a positional-lookup mismatch (F22 mechanism)', (spec['seed'], fit_rule_broken, lik_rule_broken)) \
         if (fit_rule_broken or lik_rule_broken) else None
@@ -280,10 +290,12 @@ def _sample2(spec, ctx):
     Uv = samplers.SAMPLERS[fam](th, 400, rng)
     df = pd.DataFrame({'a': st.norm(2, 1.5).ppf(Uv[:, 0]), 'b': st.gamma(3.0, 0, 2.0).ppf(Uv[:, 1])})
     where = {'family': fam, 'tau': tau, 'vine_type': spec['vine_type']}
-    model, poison = vines.fit(ctx, spec['vine_type'], df, 3, 'pos', random_state=int(rng.integers(1 << 30)))
+    past = vines.past_table(df, rng) if spec['seed'] % 2 else None
+    model, poison = vines.fit(ctx, spec['vine_type'], df, 3, 'pos', random_state=int(rng.integers(1 << 30)), past=past)
     if poison is None:
         ctx.violation('sample.fit', 'C17:fit-' + exc_mech(model), dict(exc_detail(model), **where))
         return
+    where['refitted'] = past is not None
     n = spec['n_sample']
     ok, out = ctx.call(model.sample, n)
     if not ok:
